@@ -199,6 +199,8 @@ def run(chk: Check):
             if rng.random() < 0.4:
                 scn.agent = "eps"; scn.agent_opts = (rng.choice([-1.0, 0.5]), rng.choice([0.0, 0.3, 1.0]), 0.0)
         chk.count("scheduler:" + sched)
+        scn.model_mutates = i % 4 == 2
+        chk.count("model:" + ("writes_into_its_argument" if scn.model_mutates else "pure"))
         scn.keep_buffers = i % 3 == 1
         chk.count("sampler_arrays:" + ("one_buffer_rewritten_in_place" if scn.keep_buffers else "fresh_each_call"))
         if rng.random() < 0.4:
